@@ -29,7 +29,7 @@ Definition z (a : Z) : Qc := Q2Qc (inject_Z a)."""
 
 KINDS = ["ndarray", "csr_array", "coo_array", "lil_array", "csr_matrix"]
 SHAPES = ["full", "sparse", "zero_row", "zero_col", "zero_rowcol", "strict_upper", "strict_lower",
-          "upper", "lower", "symmetric", "diagonal", "zero", "single_offdiag", "antisym_offdiag"]
+          "upper", "lower", "symmetric", "diagonal", "zero", "single_offdiag", "antisym_offdiag", "zero_trace"]
 
 
 # ------------------------------------------------------------------ exact numbers
@@ -168,6 +168,12 @@ def gen_matrix(rng, n, m, shape, integer):
             for j in range(m):
                 if i < j and j < n and i < m:
                     M[j][i] = -M[i][j]
+    if shape == "zero_trace" and min(n, m) >= 2:
+        # a diagonal that is not zero but sums to zero (a test "is there a diagonal?" must not look at the trace)
+        a = gen_entry(rng, integer, nonzero=True)
+        for i in range(min(n, m)):
+            M[i][i] = Fraction(0)
+        M[0][0], M[1][1] = a, -a
     if shape == "single_offdiag":
         M = [[Fraction(0)] * m for _ in range(n)]
         i, j = rng.randrange(n), rng.randrange(m)
